@@ -47,6 +47,23 @@ REQUIRED_UNITS = [
 ]
 
 
+def clone(node: T.Any) -> T.Any:
+    """Structural copy of an AST (fields and positions only - not the analysis back-links such as _parent,
+    which would make copy.deepcopy drag the whole module along)."""
+    if isinstance(node, ast.AST):
+        new = node.__class__()
+        for f in node._fields:
+            if hasattr(node, f):
+                setattr(new, f, clone(getattr(node, f)))
+        for a in ("lineno", "col_offset", "end_lineno", "end_col_offset"):
+            if hasattr(node, a):
+                setattr(new, a, getattr(node, a))
+        return new
+    if isinstance(node, list):
+        return [clone(x) for x in node]
+    return node
+
+
 def set_parents(tree: ast.AST) -> None:
     for node in ast.walk(tree):
         for child in ast.iter_child_nodes(node):
@@ -198,7 +215,7 @@ class ClassInfo:
 
 
 class Module:
-    def __init__(self, name: str, relpath: str, src: str):
+    def __init__(self, name: str, relpath: str, src: str, alpha: bool = True):
         self.name = name
         self.relpath = relpath
         self.src = src
@@ -206,6 +223,11 @@ class Module:
             self.tree = ast.parse(src, filename=relpath)
         except SyntaxError as exc:
             raise AnalysisError(f"unparsable unit {relpath}: {exc}") from exc
+        self.alpha_notes: list[str] = []
+        if alpha:
+            from . import alpha as _alpha
+
+            self.alpha_notes = _alpha.normalise_module(relpath, self.tree)
         set_parents(self.tree)
         self.imports: dict[str, tuple[str, str | None]] = {}
         self.classes: dict[str, ClassInfo] = {}
@@ -270,8 +292,9 @@ class Module:
 
 
 class Program:
-    def __init__(self, root: str | None = None):
+    def __init__(self, root: str | None = None, alpha: bool = True):
         self.root = root or REPO
+        self.alpha = alpha
         self.modules: dict[str, Module] = {}
         self.texts: dict[str, str] = {}
         for rel in REQUIRED_UNITS:
@@ -296,7 +319,7 @@ class Program:
         name = rel[:-3].replace(os.sep, ".")
         if name.endswith(".__init__"):
             name = name[: -len(".__init__")]
-        self.modules[name] = Module(name, rel, src)
+        self.modules[name] = Module(name, rel, src, alpha=self.alpha)
 
     # ---- resolution ---------------------------------------------------------------
     def resolve(self, module: Module, name: str, _depth: int = 0) -> ClassInfo | FuncInfo | str | None:
